@@ -505,4 +505,11 @@ def minimal_programs(simname, name, d, cutoff, seed):
                     out.append({"program": prog, "shots": None, "tag": "meas/%s/ph%d/shotsNone" % (pl, photons)})
             else:
                 out.append({"program": prog, "shots": 1, "tag": "gate/%s/ph%d" % (pl, photons)})
+                # the same instruction inside a measured circuit: mixing interferometer on all modes, the
+                # instruction, then the simulator's ParticleNumberMeasurement on all modes (one sample)
+                if photons == (0 if simname == "GaussianSimulator" else 1):
+                    mix = [{"cls": "Interferometer", "modes": None, "kw": {"matrix": {"$": "unitary", "k": d}}}] if d >= 2 else []
+                    meas = [{"cls": "ParticleNumberMeasurement", "modes": None, "kw": {}}]
+                    out.append({"program": ctx + mix + [{"cls": name, "modes": pl, "kw": kw}] + meas, "shots": 1,
+                                "tag": "gate+measure/%s/ph%d" % (pl, photons)})
     return out
